@@ -256,8 +256,8 @@ def _classify(c, atoms, Ly, Lx, allow_phi_of=()):
         if isinstance(a, App) and a.name == 'loopout' and isinstance(a.args[0], Rat):
             lo_names |= set(a.args[0].atoms())
     for a in atoms:
-        if a in lo_names or (isinstance(a, App) and a.name == 'ite'):
-            continue        # the variable name inside loopout(name, loop); ite is structure (its parts are visited)
+        if a in lo_names or (isinstance(a, App) and a.name in ('ite', 'max', 'min')):
+            continue        # the variable name inside loopout(name, loop); ite / max / min are structure (their parts are visited)
         if a == centre:
             roles['own'].append(a)
         elif isinstance(a, App) and a.name == 'isnan' and a.args[0] == Rat.atom(centre):
